@@ -44,6 +44,15 @@ Theorem code_boost_chain_is_reversed_decay_chain : forall fuel t s l,
                    topo_incoming_edge_ids t = [i0] /\ py_remove i0 (rev chain) = Ok l.
 Proof. exact gen_boost_chain_is_reversed_decay_chain. Qed.
 
+(** UNIVERSAL refinement of the hand model by the translated code: on EVERY topology with distinct edge ids whose isobar
+    tree exists (= assert_isobar_topology's two-body shape, read off by Kin.tree_of_topo) and has distinct leaves, at EVERY
+    node the translated determine_attached_final_state (qrules' breadth-first walk) returns Kin.att, get_sibling_state_id
+    pairs the two children, get_parent_id names the node's own edge and is_opposite_helicity_state returns Kin.is_opp.
+    The universal C07 theorems about Kin.v therefore speak about the code of these helpers as it reads now. *)
+Theorem code_helpers_refine_Kin : forall t tr,
+  wf_ids t -> tree_of_topo t = Some tr -> NoDup (leaves tr) -> tree_agrees t tr.
+Proof. exact gen_helpers_refine_Kin. Qed.
+
 (** Instance theorem (re-checked on every run against the topologies qrules creates NOW, plus renumbered variants):
     on each of them the translated helpers agree, at every node, with the hand model Kin.v that the C07 theorems are
     about (attached final states, sibling, opposite-helicity flag, parent), and assert_isobar_topology accepts it. *)
@@ -58,6 +67,10 @@ Example code_current_topologies_nonvacuous :
                     | Err ENondet | Err EFuel => false | _ => true end) current_topologies = true.
 Proof. vm_compute. repeat split; reflexivity. Qed.
 
+Example code_refinement_hypotheses_hold_on_current_topologies :
+  forallb refine_hyps_ok current_topologies = true.
+Proof. vm_compute. reflexivity. Qed.
+
 Example code_decay_chain_example :
   let t := {| rt_nodes := [0; 1]; rt_edges := [E (-1) None (Some 0); E 0 (Some 0) None; E 3 (Some 0) (Some 1);
                                                E 1 (Some 1) None; E 2 (Some 1) None] |} in
@@ -70,4 +83,5 @@ Print Assumptions code_opposite_helicity_exclusive.
 Print Assumptions code_decay_chain_links.
 Print Assumptions code_decay_chain_fuel_irrelevant.
 Print Assumptions code_boost_chain_is_reversed_decay_chain.
+Print Assumptions code_helpers_refine_Kin.
 Print Assumptions code_helpers_agree_with_Kin_on_current_topologies.
